@@ -479,9 +479,11 @@ func (hs *clientHandshakeStateTLS13) processHelloRetryRequest() error {
 	if isInnerHello {
 		// Any extensions which have changed in hello, but are mirrored in the
 		// outer hello and compressed, need to be copied to the outer hello, so
-		// they can be properly decompressed by the server. For now, the only
-		// extension which may have changed is keyShares.
+		// they can be properly decompressed by the server. The extensions which
+		// may have changed are keyShares and, when the HelloRetryRequest carried
+		// one, cookie.
 		hs.hello.keyShares = hello.keyShares
+		hs.hello.cookie = hello.cookie
 		hs.echContext.innerHello = hello
 		if hs.uconn != nil && hs.uconn.clientHelloBuildStatus == BuildByUtls {
 			if err := hs.uconn.computeAndUpdateOuterECHExtension(hs.echContext.innerHello, hs.echContext, false); err != nil {
